@@ -562,7 +562,27 @@ WRAPS = ["pthread_mutexattr_init", "pthread_mutexattr_settype", "pthread_create"
          "sem_init", "sem_destroy", "sem_post", "sem_wait", "sem_timedwait", "sem_trywait"]
 
 
+FALLBACK_USED = {}   # (prop, part name) -> reason; reported in the evidence
+
+
 def part_binary(prop, part):
+    """Primary build; when it does not compile and the part names fallback flags (a harness that reads private members of the
+    library for an additional oracle), build the variant without that oracle instead of failing the whole check."""
+    try:
+        return part_binary_(prop, part)
+    except BuildError as e:
+        if "fallback_cflags" not in part:
+            raise
+        log("[build] %s/%s: primary build failed, using the fallback variant (%s)" % (prop, part["name"], part.get("fallback_note", "reduced oracle")))
+        log(str(e)[-1500:])
+        FALLBACK_USED[(prop, part["name"])] = part.get("fallback_note", "reduced oracle")
+        p2 = dict(part)
+        p2["cflags"] = list(part["fallback_cflags"])
+        p2["bin"] = part.get("bin", "%s_%s" % (prop, part["name"])) + "_fb"
+        return part_binary_(prop, p2)
+
+
+def part_binary_(prop, part):
     if part.get("flavour") in ("sched", "schedrel"):
         ld = ["-Wl," + ",".join("--wrap=" + w for w in WRAPS + list(part.get("wraps", ())))] + list(part.get("ldflags", ()))
         return build_bin(part.get("bin", "%s_%s" % (prop, part["name"])), part["sources"], part["flavour"], part.get("cflags", ()), ld, deps=part.get("deps", ()), plain_sources=["vsched/rt.cpp"] + list(part.get("plain_sources", ())))
@@ -762,6 +782,8 @@ def check(prop, tier):
         detail = {"engine": "opfuzz", "cases": res["cases"], "ops": res["ops"], "nontrivial_cases": res["nontrivial"], "distinct_nontrivial": len(res["hashes"]),
                   "labels": res["labels"], "counters": res["counters"], "regress_files_replayed": nreg, "workers": res["workers"],
                   "capped_by_time": res["capped"], "excluded_patterns": excludes}
+        if (prop, pname) in FALLBACK_USED:
+            detail["fallback_build"] = FALLBACK_USED[(prop, pname)]
         coverage["evaluations"] += res["cases"]
         coverage["distinct_nontrivial"] += len(res["hashes"])
         coverage["samples"] += [{"part": pname, "labels": s["labels"], "case": s["case"]} for s in res["samples"][:3]]
